@@ -404,11 +404,17 @@ def case_strategy(draw, driver=None):
     for i in range(n):
         if drv != "hasseb":
             tr = draw(transaction())
+            as_own = drv == "tridonic" and draw(st.integers(0, 4)) == 0
             if drv in ("luba", "sci"):
                 tr = [x for x in tr if x[1] in ("forward", "backward")]
             for (dt_, kind, bits, value) in tr:
                 d = {"t": round(t + dt_, 4), "kind": kind if kind != "busok" else "busok", "bits": bits, "value": value}
                 if drv == "tridonic":
+                    if as_own:
+                        # DALI USB firmware quirk documented in hid.py: a foreign frame identical to the interface's most
+                        # recent transmission is reported as if it were its own (mode 0x12, stale sequence number)
+                        d["as_own"] = True
+                        d["seq"] = 0xEE
                     inject.append(d)
                 elif kind == "forward":
                     inject.append(d)
